@@ -1,6 +1,7 @@
 /* Harness core: library-state snapshots, injected environment, observations,
  * forked parallel runner, JSON result output. */
 #include "h.h"
+#include <locale.h>
 #include <stdarg.h>
 #include <time.h>
 #include <unistd.h>
@@ -382,6 +383,11 @@ int common_args(int argc, char **argv) {
         else if (!strcmp(argv[i], "--deadline") && i + 1 < argc) G_deadline = now_s() + atof(argv[++i]);
         else if (!strcmp(argv[i], "--seed") && i + 1 < argc) G_seed = atol(argv[++i]);
         else if (!strcmp(argv[i], "--tier") && i + 1 < argc) G_thorough = !strcmp(argv[++i], "thorough");
+        else if (!strcmp(argv[i], "--locale") && i + 1 < argc) {      /* the process locale is an environment setting a C library function may consult */
+            const char *got = setlocale(LC_ALL, argv[++i]);
+            if (!got) fprintf(stderr, "harness: locale %s is not available (LOCPATH=%s); running in the C locale\n", argv[i], getenv("LOCPATH") ? getenv("LOCPATH") : "");
+            out_kv_int("locale_requested", 1); out_kv_int("locale_in_force", got != NULL);
+        }
         else break;
     }
     if (G_workers > 64) G_workers = 64;
